@@ -90,9 +90,13 @@ def parse_dump(text):
             else:
                 md = re.match(r'^  derivation "(.*)" \{$', line)
                 mk = re.match(r"^  (\w+): (.*)$", line)
-                if md:
+                mf = re.match(r"^    flags: (.*)$", line)
+                if mf and section == "derivation":
+                    cur.setdefault("derivation_flags", {})[cur["derivations"][-1]] = mf.group(1).split()
+                elif md:
                     cur["derivations"].append(md.group(1))
-                    section = None
+                    cur.setdefault("derivation_flags", {})[md.group(1)] = []
+                    section = "derivation"
                 elif line.strip() == "comment:":
                     section = "comment"
                 elif line.strip() == "prototype:":
@@ -168,6 +172,14 @@ def add_scenarios(rng, h):
               "class Pen {\n__published:\n  enum struct Cap { butt, round };\n  enum class Join { miter };\n  enum Old { o0 };\n  Cap get_cap() const;\n};\n")
     for tname, scoped in [("Blend", True), ("Mix", True), ("Plain", False), ("Pen::Cap", True), ("Pen::Join", True), ("Pen::Old", False)]:
         truth.append(("scoped-enum", tname, scoped, None))
+    # virtual inheritance in both spellings of the base-specifier, beside ordinary bases: cast availability per derivation
+    extra += ("class VRoot {\n__published:\n  int vroot();\n};\nclass VOther {\n__published:\n  int vother();\n};\n"
+              "class VPubVirt : public virtual VRoot {\n__published:\n  int a1();\n};\nclass VVirtPub : virtual public VRoot {\n__published:\n  int a2();\n};\n"
+              "class VPlain : public VRoot {\n__published:\n  int a3();\n};\nclass VMixed : public VOther, public virtual VRoot {\n__published:\n  int a4();\n};\n"
+              "class VMixed2 : virtual public VRoot, public VOther {\n__published:\n  int a5();\n};\n")
+    for cls, base, virt in [("VPubVirt", "VRoot", True), ("VVirtPub", "VRoot", True), ("VPlain", "VRoot", False), ("VMixed", "VRoot", True), ("VMixed", "VOther", False),
+                            ("VMixed2", "VRoot", True), ("VMixed2", "VOther", False)]:
+        truth.append(("derivation", cls, (base, virt), None))
     for name, virt in [("NpDerived::vread", True), ("NpDerived::vrewind", True), ("NpDerived::vend", True), ("NpDerived::own", False), ("NpDerived::plain", False),
                        ("NpDeep::vread", True), ("NpDeep::own", False), ("NpDeep::vend", False)]:
         truth.append(("virtual", name, virt, None))
@@ -258,7 +270,11 @@ def run(ck):
                 cmd = [str(bdir / "bin" / "interrogate"), "-D__cplusplus", "-oc", "o.cxx", "-od", "o.in", "-oh", "o.txt", "-module", "m", "-library", "l", "-c", "-fnames"] + opts + ["g.h"]
                 rc, so, se = iglib.sh(cmd, cwd=str(wd), timeout=120)
                 if rc != 0:
+                    # the generator writes valid C++ only: a run that fails describes none of the exported entities
                     ck.extra["interrogate_failed"] = ck.extra.get("interrogate_failed", 0) + 1
+                    ck.search_case("header-processed")
+                    ck.violation("interrogate-fails", "interrogate %s exits %s on a valid generated header: %s" % (" ".join(opts), rc, se.strip().split("\n")[0][:200] if se.strip() else ""),
+                                 {"g.h": text, "cmd.txt": " ".join(cmd) + "\n"}, se[-2000:])
                     continue
                 d = parse_dump((wd / "o.txt").read_text(errors="replace"))
                 files = {"g.h": text, "cmd.txt": " ".join(cmd) + "\n"}
@@ -278,12 +294,30 @@ def run(ck):
                     want_bases = sorted(b for b, a, v in c.bases if a == "public")
                     if sorted(t["derivations"]) != want_bases:
                         bad("bases-differ", "class %s: recorded bases %s, declared public bases %s" % (c.name, sorted(t["derivations"]), want_bases))
+                    # cast availability: a virtual base can be reached (upcast helper) but never cast back from; a non-virtual one can
+                    for b, a, v in c.bases:
+                        fl = t.get("derivation_flags", {}).get(b)
+                        if a != "public" or fl is None:
+                            continue
+                        if v and ("downcast_impossible" not in fl or "upcast" not in fl):
+                            bad("virtual-base-casts", "class %s: virtual public base %s is recorded with cast flags %s (expected an upcast helper and downcast_impossible)" % (c.name, b, fl))
+                        if not v and "downcast_impossible" in fl:
+                            bad("virtual-base-casts", "class %s: non-virtual base %s is recorded with downcast_impossible" % (c.name, b))
                     cm = " ".join(t["comment"])
                     if (c.comment or "") not in cm or (not c.comment and cm):
                         bad("class-comment", "class %s: recorded comment %r, written %r" % (c.name, cm, c.comment))
                     for m in c.methods():
                         if m not in exported or m.deleted:
                             continue
+                        if m.kind == "ctor" and m.params and m.params[0].name == "src":
+                            # copy-constructor role: exactly if every parameter after the first has a default argument
+                            fnc = d["function"].get("%s::%s" % (c.name, c.name))
+                            is_copy = all(q.default is not None for q in m.params[1:])
+                            ck.search_case("constructor-role")
+                            for w in (fnc["wrappers"] if fnc else []):
+                                if w["params"] and w["params"][0]["name"] == "src" and ("copy_constructor" in w["flags"]) != is_copy:
+                                    bad("copy-constructor-role", "%s::%s(%s): the wrapper taking %d argument(s) has flags %s; the constructor is %s copy constructor" % (
+                                        c.name, c.name, ", ".join(q.decl() for q in m.params), len(w["params"]), w["flags"], "a" if is_copy else "not a"))
                         if m.kind != "method":
                             continue
                         fn = d["function"].get("%s::%s" % (c.name, m.name))
@@ -368,6 +402,17 @@ def run(ck):
                             bad("scenario-missing:" + name, "the published enum %s has no type entry" % name)
                         elif ("scoped_enum" in t["flags"]) != sigs or "enum" not in t["flags"]:
                             bad("enum-kind:" + name, "%s is %s; recorded flags %s" % (name, "a scoped enum" if sigs else "an unscoped enum", t["flags"]))
+                        continue
+                    if kind == "derivation":
+                        t = d["type"].get(name)
+                        ck.search_case("scenario-" + kind)
+                        fl = (t or {}).get("derivation_flags", {}).get(sigs[0])
+                        if fl is None:
+                            bad("scenario-missing:" + name, "class %s has no derivation record for its public base %s" % (name, sigs[0]))
+                        elif sigs[1] and ("downcast_impossible" not in fl or "upcast" not in fl):
+                            bad("virtual-base-casts", "class %s: virtual public base %s is recorded with cast flags %s (expected an upcast helper and downcast_impossible)" % (name, sigs[0], fl))
+                        elif not sigs[1] and "downcast_impossible" in fl:
+                            bad("virtual-base-casts", "class %s: non-virtual base %s is recorded with downcast_impossible" % (name, sigs[0]))
                         continue
                     fn = d["function"].get(name)
                     ck.search_case("scenario-" + kind)
